@@ -1,10 +1,10 @@
 SPECIFICATION Spec
 CONSTANTS
   Rel = "rfc"
-  Budget = 3
-  Foreign = FALSE
+  Budget = 2
+  Foreign = TRUE
   Track = "rfc"
-  Demux = "link"
+  Demux = "strict"
 INVARIANTS TypeOK NeverAdminDown UpMeansPeerAlive KnowsPeer
 PROPERTIES SilenceMeansDown Recovers
 CHECK_DEADLOCK FALSE
